@@ -226,7 +226,30 @@ def main():
     return code
 
 
+def _ensure_devnull():
+    """The sandbox runs as root; a tool that writes its output to /dev/null by
+    rename (seen once during development) replaces the device by a regular
+    file, after which cargo, subprocess.DEVNULL and `< /dev/null` misbehave.
+    Repair it (or stop with an infrastructure error) before anything runs."""
+    import stat
+    try:
+        if stat.S_ISCHR(os.stat("/dev/null").st_mode):
+            return
+    except OSError:
+        pass
+    try:
+        tmp = "/dev/null.verif-%d" % os.getpid()
+        os.mknod(tmp, 0o666 | stat.S_IFCHR, os.makedev(1, 3))
+        os.chmod(tmp, 0o666)
+        os.rename(tmp, "/dev/null")
+        sys.stderr.write("run.py: /dev/null was not a character device; repaired\n")
+    except OSError as e:
+        sys.stderr.write("INFRA: /dev/null is not a character device and cannot be repaired: %s\n" % e)
+        sys.exit(2)
+
+
 def _main_keeping_generated():
+    _ensure_devnull()
     """A run against a scratch worktree (VERIF_REPO != /repo) regenerates
     lean/BreezyVerif/Generated/Cxx.lean from that tree; put the /repo version
     back afterwards so the committed project keeps describing /repo."""
